@@ -142,7 +142,7 @@ def _witness(m, vals):
     return out
 
 
-def task_record(table_idx, rec, mode, field=None, namelen='full'):
+def task_record(table_idx, rec, mode, field=None, namelen='full', field2=None, second=0, seed=0):
     """mode: 'fit' (all fields fit; obligation B, and obligation A queries),
              'absent' (field `field` is None, others fit),
              'spill' (field `field` is wider than its columns, others fit)."""
@@ -158,7 +158,8 @@ def task_record(table_idx, rec, mode, field=None, namelen='full'):
 
     def h(c):
         p = _parser(ld, table)
-        absent = {field} if mode == 'absent' else set()
+        absent = ({field} | ({field2} if field2 is not None else set())) if mode == 'absent' else set()
+        spilled = ({field} | ({field2} if field2 is not None else set())) if mode == 'spill' else set()
         vals, Ls = _make_values(c, fields, absent, namelen)
         spill_possible = {}
         if mode == 'fit' and namelen == 'full':
@@ -169,7 +170,7 @@ def task_record(table_idx, rec, mode, field=None, namelen='full'):
                 spill_possible[i] = r
         for i, L in enumerate(Ls):
             if L is None: continue
-            if mode == 'spill' and i == field: c.add(L > abs(fields[i][1]))
+            if i in spilled: c.add(L > abs(fields[i][1]))
             else: c.add(L <= abs(fields[i][1]))
         if mode == 'spill':
             r, _ = c.solve(z3.BoolVal(True), full=True)
@@ -186,7 +187,7 @@ def task_record(table_idx, rec, mode, field=None, namelen='full'):
         if len(parsed) != len(fields):
             c.prove(False, 'parse length')
         for i, fld in enumerate(fields):
-            if mode == 'spill' and i == field and fld[0] in 'ef':
+            if i in spilled and fld[0] in 'ef':
                 ok = _precision_loss_ok(parsed[i], vals[i])
             else:
                 ok = _expected_ok(parsed[i], vals[i], fld, reader)
@@ -204,8 +205,10 @@ def task_record(table_idx, rec, mode, field=None, namelen='full'):
                 break
         return 'checked'
 
-    res = sym.explore(h, sym.Ctx(timeout_ms=30000), max_paths=400)
-    tr = report.summarize('%s/%s/%s%s' % (table[0], rec, mode, '' if field is None else ':%d' % field),
+    cx = sym.Ctx(timeout_ms=30000)
+    cx.second_every, cx.second_offset = second, seed
+    res = sym.explore(h, cx, max_paths=600)
+    tr = report.summarize('%s/%s/%s%s%s' % (table[0], rec, mode, '' if field is None else ':%d' % field, '' if field2 is None else '+%d' % field2),
                           res, failures, samples,
                           extra=dict(distinct_obligations=len(distinct)))
     return tr
@@ -271,13 +274,22 @@ def run(tier, seed, rep):
                 tasks.append((task_record, dict(table_idx=ti, rec=rec, mode='absent', field=i)))
                 if f[0] in 'efd':
                     tasks.append((task_record, dict(table_idx=ti, rec=rec, mode='spill', field=i)))
+                if tier == 'thorough' and i + 1 < len(fields) and fields[i + 1][0] != 'x':
+                    # two neighbouring fields absent / over-wide at once
+                    tasks.append((task_record, dict(table_idx=ti, rec=rec, mode='absent', field=i, field2=i + 1)))
+                    if f[0] == 'e' and fields[i + 1][0] == 'e':
+                        tasks.append((task_record, dict(table_idx=ti, rec=rec, mode='spill', field=i, field2=i + 1)))
+    if tier == 'thorough':
+        for t in tasks: t[1].update(second=10, seed=seed)   # every 10th query re-decided by /usr/bin/z3
+    # long tasks (%f over-wide) first
+    tasks.sort(key=lambda t: 0 if (t[1].get('mode') == 'spill') else 1)
     n, bad = validate_printf_model(rep)
     results = report.run_tasks(tasks)
     rep.add_results(results)
     rep.bounds += ['reals in e-fields: v = 0 or 1e-120 <= |v| <= 1e120, any mantissa (exact real arithmetic); in f-fields: |v| <= 10^(w+2)',
                    'integers: |i| <= 10^w (one past the field width)',
                    'names: full width and length 1 over [0-9A-Za-z]',
-                   'one absent field at a time; one over-wide field at a time',
+                   'quick: one absent field at a time, one over-wide field at a time; thorough: also two neighbouring fields absent / over-wide, and every 10th query re-decided by the z3 4.8.12 binary',
                    '%d record kinds, %d fields in the four tables' % (nrec, nfields)]
     rep.outside += ['IEEE digit generation of %%e/%%f (contract: printf model validated on %d lattice points)' % n,
                     'names containing blanks or punctuation', 'two or more over-wide fields in one record']
